@@ -401,6 +401,17 @@ XPathProcessorImpl::tokenize(const XalanDOMString&  pat)
                 }
 
                 addToTokenQueue(theToken);
+
+                // A variable reference is a '$' directly followed by a
+                // QName: no white space is allowed in between ("$ x").
+                if (c == XalanUnicode::charDollarSign &&
+                    i + 1 < nChars &&
+                    isXMLWhitespace(pat[i + 1]) == true)
+                {
+                    error(
+                        XalanMessages::NotValidNCName_1Param,
+                        s_emptyString);
+                }
             }       
             break;
 
@@ -607,6 +618,16 @@ XPathProcessorImpl::mapNSTokens(
             {
                 addToTokenQueue(scratchString);
             }
+        }
+        else if (posOfScan >= pat.length() ||
+                 pat[posOfScan] != XalanUnicode::charAsterisk)
+        {
+            // A QName is a single token, so the local part, or the '*' of
+            // the name test "ns:*", must follow the colon directly: "ns: foo",
+            // "ns: *" and "ns:" are not names.
+            error(
+                XalanMessages::NotValidNCName_1Param,
+                s_emptyString);
         }
     }
 
